@@ -1,7 +1,7 @@
 (* C15 — property theorems only. M is `run true` over the tables of the source (Model.v + Interp.v), S is
    `run false` (Spec.v + Interp.v); the theorems over the tables regenerated on every run are in
    TableProofs.v. *)
-From C15 Require Import Model Spec Interp Corr IntProofs WordProofs EnglishProofs RomanProofs CaseProofs Proofs.
+From C15 Require Import Model Spec Interp Corr IntProofs WordProofs EnglishProofs RomanProofs FixnumProofs CaseProofs Proofs.
 
 (* ======== ~D ~B ~O ~X ~nR: "render any integer in the right base with the requested width, padding, sign
    and grouping" ======== *)
@@ -95,6 +95,34 @@ Print Assumptions C15_ordinal_last_word.
 Theorem C15_english_loop : forall ordinal z, go_english src_tables ordinal (dec_text z) = std_english ordinal z.
 Proof. exact english_loop. Qed.
 Print Assumptions C15_english_loop.
+(* (6r) The argument of ~R as Go holds it: a slip.Fixnum (int64) inside -2^63 .. 2^63-1, a *slip.Bignum outside
+   (Model.go_repr). The digits dirR renders from either representation (strconv.AppendInt / big.Int.Append, sign
+   included) are the decimal text of the integer, so (5b) and (6) hold for the digits dirR really starts from: the
+   Roman and the English branch write the defined text for EVERY integer in whichever representation it arrives, the
+   two limits of the fixnum range and their bignum neighbours included. *)
+Theorem C15_dirR_digits_of_either_representation : forall z, go_radix_digits z = dec_text z.
+Proof. exact go_radix_digits_is_dec_text. Qed.
+Print Assumptions C15_dirR_digits_of_either_representation.
+Theorem C15_dirR_english_fixnum_and_bignum : forall ordinal z,
+  go_english src_tables ordinal (go_radix_digits z) = std_english ordinal z.
+Proof. exact english_any_representation. Qed.
+Print Assumptions C15_dirR_english_fixnum_and_bignum.
+Theorem C15_dirR_roman_fixnum_and_bignum : forall old z,
+  go_roman src_tables old (go_radix_digits z) = std_roman old z.
+Proof. exact roman_any_representation. Qed.
+Print Assumptions C15_dirR_roman_fixnum_and_bignum.
+(* (6s) Why dirR takes the sign off the TEXT: int64 negation (arithmetic modulo 2^64) gives the magnitude of every
+   fixnum but the most negative one and gives -2^63 back for -2^63; digits rendered from a negated int64 therefore still
+   start with '-' exactly there. The definition has a text for -2^63 ("negative nine quintillion ... eight hundred
+   eight", FixnumProofs.most_negative_fixnum_words) and by (6r) dirR writes it. *)
+Theorem C15_int64_negation : forall z, is_fixnum z = true ->
+  wrap64 (- z) = if (z =? - two63)%Z then z else (- z)%Z.
+Proof. exact int64_negation. Qed.
+Print Assumptions C15_int64_negation.
+Theorem C15_negated_fixnum_digits : forall z, is_fixnum z = true -> (z < 0)%Z ->
+  dec_text (wrap64 (- z)) = if (z =? - two63)%Z then dec_text z else digit_text 10 (Z.abs_N z).
+Proof. exact negated_fixnum_digits. Qed.
+Print Assumptions C15_negated_fixnum_digits.
 (* (6d) What the loop writes for every integer but 0 and EVERY table (no guard): nothing (an error) when the decimal text
    has more than three digits per scale word; otherwise "negative" if z < 0, then the words of
    the groups of three digits of |z| from the most significant one, each group as one round of the loop writes it (GL);
